@@ -66,6 +66,15 @@ open BioCantor BioCantor.Spec BioCantor.Spec.Query BioCantor.Model.Query BioCant
 
 /-! ### `_subset_parent` -/
 
+theorem slice_slice (l : List Char) (i j a b : Int) (hi : 0 ≤ i) (ha : 0 ≤ a) (hb : b ≤ j - i) :
+    slice (slice l i j) a b = slice l (i + a) (i + b) := by
+  unfold slice
+  rw [List.drop_take, List.take_take, List.drop_drop]
+  have e1 : (i + a).toNat = i.toNat + a.toNat := by omega
+  have e2 : (i + b - (i + a)).toNat = (b - a).toNat := by omega
+  have e3 : min (b - a).toNat ((j - i).toNat - a.toNat) = (b - a).toNat := by omega
+  rw [e1, e2, e3]
+
 theorem selfBounds_whole {src : Source} {seq : List Char} (hp : src.par = .whole seq) (hb : src.bounds = none) :
     selfBounds src = some (0, (seq.length : Int)) := by
   unfold selfBounds; rw [hb, hp]
@@ -74,12 +83,16 @@ theorem selfBounds_chunk {src : Source} {cs : Int} {seq : List Char} (hp : src.p
     (hb : src.bounds = none) : selfBounds src = some (cs, cs + (seq.length : Int)) := by
   unfold selfBounds; rw [hb, hp]
 
-theorem subsetParentG_none (fixB fixC : Bool) (src : Source) (hp : src.par = .none) (start stop : Int) :
-    subsetParentG fixB fixC src start stop = .ok .none := by
-  unfold subsetParentG; rw [hp]; rfl
-
 theorem subsetParent_none (src : Source) (hp : src.par = .none) (start stop : Int) :
-    subsetParent src start stop = .ok .none := subsetParentG_none _ _ src hp start stop
+    subsetParent src start stop = .ok .none := by
+  unfold subsetParent; rw [hp]; rfl
+
+/-- a sequence-less parent is handed on unchanged (repaired F-C09b); a zero-length result drops it -/
+theorem subsetParent_noseq (src : Source) (hp : src.par = .noseq) (start stop : Int) :
+    subsetParent src start stop = .ok (if start = stop then .none else .noseq) := by
+  unfold subsetParent; rw [hp]
+  simp only []
+  split <;> rfl
 
 theorem mkChunk_ok (start stop : Int) (seq : List Char) (h0 : 0 ≤ start) (h1 : start ≤ stop)
     (h2 : stop - start = seq.length) : mkChunk start stop seq = .ok (.chunk start stop seq) := by
@@ -88,192 +101,99 @@ theorem mkChunk_ok (start stop : Int) (seq : List Char) (h0 : 0 ≤ start) (h1 :
   simp only [this, not_true_eq_false, if_false, h2, ne_eq]
   rfl
 
-/-- whole-chromosome source: the new parent is the chromosome stretch `[start, stop)` (or the unchanged parent) —
-    for the code as it is and with the candidate repairs alike -/
-theorem subsetParentG_whole (fixB fixC : Bool) (src : Source) (seq : List Char) (hp : src.par = .whole seq)
-    (hb : src.bounds = none) (start stop : Int) (h : 0 ≤ start ∧ start < stop ∧ stop ≤ seq.length) :
-    subsetParentG fixB fixC src start stop =
-      .ok (if start = 0 ∧ stop = seq.length then .whole seq else .chunk start stop (slice seq start stop)) := by
-  unfold subsetParentG
-  rw [hp]
-  have hne : ¬ start = stop := by omega
-  simp only [hne, if_false, Par.hasSeq, Bool.true_eq_false, and_false, needBounds_of (selfBounds_whole hp hb), bind,
-    Except.bind, pure, Except.pure]
-  by_cases hid : start = 0 ∧ stop = (seq.length : Int)
-  · simp only [hid, and_self, if_true]; rfl
-  · simp only [hid, if_false, hb, Option.isSome_none, Bool.false_eq_true, and_false, Par.isChunk, false_and]
-    rw [p2r_in 0 seq.length start (by omega)]
-    simp only []
-    have e2 : start - 0 = start := by omega
-    cases fixC with
-    | true =>
-      simp only [if_true]
-      rw [p2r_in 0 seq.length (stop - 1) (by omega)]
-      simp only []
-      have e1 : stop - 1 - 0 + 1 = stop := by omega
-      rw [e1, e2]
-      exact mkChunk_ok _ _ _ (by omega) (by omega) (by rw [slice_length _ _ _ (by omega) (by omega) (by omega)])
-    | false =>
-      simp only [Bool.false_eq_true, if_false]
-      by_cases hl : stop = (seq.length : Int)
-      · simp only [hl, if_true]
-        rw [p2r_in 0 seq.length (seq.length - 1) (by omega)]
-        simp only []
-        have e1 : (seq.length : Int) - 1 - 0 + 1 = seq.length := by omega
-        rw [e1, e2]
-        exact mkChunk_ok _ _ _ (by omega) (by omega) (by rw [slice_length _ _ _ (by omega) (by omega) (by omega)])
-      · simp only [hl, if_false]
-        rw [p2r_in 0 seq.length stop (by omega)]
-        simp only []
-        have e1 : stop - 0 = stop := by omega
-        rw [e1, e2]
-        exact mkChunk_ok _ _ _ (by omega) (by omega) (by rw [slice_length _ _ _ (by omega) (by omega) (by omega)])
-
-theorem subsetParent_whole (src : Source) (seq : List Char) (hp : src.par = .whole seq) (hb : src.bounds = none)
-    (start stop : Int) (h : 0 ≤ start ∧ start < stop ∧ stop ≤ seq.length) :
+/-- whole-chromosome source with bounds `[bs, be)` on the sequence (taken from the parent: `[0, len)`, or explicit):
+    for a range inside the bounds the new parent is the chromosome stretch `[start, stop)` (the unchanged parent
+    for the bounds themselves) -/
+theorem subsetParent_whole (src : Source) (seq : List Char) (hp : src.par = .whole seq) (bs be : Int)
+    (hb : selfBounds src = some (bs, be)) (hbs : 0 ≤ bs ∧ be ≤ seq.length)
+    (start stop : Int) (h : bs ≤ start ∧ start < stop ∧ stop ≤ be) :
     subsetParent src start stop =
-      .ok (if start = 0 ∧ stop = seq.length then .whole seq else .chunk start stop (slice seq start stop)) :=
-  subsetParentG_whole _ _ src seq hp hb start stop h
-
-/-- already-chunked source, range inside the chunk — as coded and repaired alike -/
-theorem subsetParentG_chunk (fixB fixC : Bool) (src : Source) (cs : Int) (seq : List Char)
-    (hp : src.par = .chunk cs seq) (hb : src.bounds = none) (hcs : 0 ≤ cs) (start stop : Int)
-    (h : cs ≤ start ∧ start < stop ∧ stop ≤ cs + seq.length) :
-    subsetParentG fixB fixC src start stop =
-      .ok (if start = cs ∧ stop = cs + seq.length then .chunk cs (cs + seq.length) seq
-           else .chunk start stop (slice seq (start - cs) (stop - cs))) := by
-  unfold subsetParentG
+      .ok (if start = bs ∧ stop = be then .whole seq else .chunk start stop (slice seq start stop)) := by
+  unfold subsetParent
   rw [hp]
   have hne : ¬ start = stop := by omega
-  simp only [hne, if_false, Par.hasSeq, Bool.true_eq_false, and_false, needBounds_of (selfBounds_chunk hp hb), bind,
-    Except.bind, pure, Except.pure]
-  by_cases hid : start = cs ∧ stop = cs + (seq.length : Int)
+  simp only [needBounds_of hb, bind, Except.bind, located, hne, if_false]
+  by_cases hid : start = bs ∧ stop = be
   · simp only [hid, and_self, if_true]; rfl
-  · have hlt : ¬ start < cs := by omega
-    have hgt : ¬ stop > cs + (seq.length : Int) := by omega
-    simp only [hid, if_false, hb, Option.isSome_none, Bool.false_eq_true, and_false, Par.isChunk, true_and, hlt]
-    rw [p2r_in cs (cs + seq.length) start (by omega)]
+  · simp only [hid, if_false, Par.isChunk, Bool.false_eq_true, false_and]
+    rw [p2r_in bs be start (by omega), ]
     simp only []
-    cases fixC with
-    | true =>
-      simp only [if_true, hgt, if_false]
-      rw [p2r_in cs (cs + seq.length) (stop - 1) (by omega)]
-      simp only []
-      have e1 : stop - 1 - cs + 1 = stop - cs := by omega
-      rw [e1]
-      exact mkChunk_ok _ _ _ (by omega) (by omega) (by rw [slice_length _ _ _ (by omega) (by omega) (by omega)]; omega)
-    | false =>
-      simp only [Bool.false_eq_true, if_false]
-      by_cases hl : stop = cs + (seq.length : Int)
-      · simp only [hl, if_true]
-        rw [p2r_in cs (cs + seq.length) (cs + seq.length - 1) (by omega)]
-        simp only []
-        have e1 : cs + (seq.length : Int) - 1 - cs + 1 = cs + seq.length - cs := by omega
-        rw [e1]
-        exact mkChunk_ok _ _ _ (by omega) (by omega)
-          (by rw [slice_length _ _ _ (by omega) (by omega) (by omega)]; omega)
-      · simp only [hl, if_false, hgt]
-        rw [p2r_in cs (cs + seq.length) stop (by omega)]
-        simp only []
-        exact mkChunk_ok _ _ _ (by omega) (by omega)
-          (by rw [slice_length _ _ _ (by omega) (by omega) (by omega)]; omega)
+    rw [p2r_in bs be (stop - 1) (by omega)]
+    simp only []
+    have e1 : stop - 1 - bs + 1 = stop - bs := by omega
+    rw [e1, slice_slice seq bs be (start - bs) (stop - bs) (by omega) (by omega) (by omega)]
+    have e2 : bs + (start - bs) = start := by omega
+    have e3 : bs + (stop - bs) = stop := by omega
+    rw [e2, e3]
+    exact mkChunk_ok _ _ _ (by omega) (by omega) (by rw [slice_length _ _ _ (by omega) (by omega) (by omega)])
 
+/-- chunk source `[cs, ce)` whose bounds `[bs, be)` overlap the chunk: the located range is `[A, B) = [max bs cs,
+    min be ce)`.  For a range whose clamp to the BOUNDS lands inside the located range, the new parent is the
+    chromosome stretch `[max start bs, min stop be)` read from the chunk (nothing lost at either end: repaired
+    F-C09c); the bounds themselves keep the whole chunk. -/
 theorem subsetParent_chunk (src : Source) (cs : Int) (seq : List Char) (hp : src.par = .chunk cs seq)
-    (hb : src.bounds = none) (hcs : 0 ≤ cs) (start stop : Int)
-    (h : cs ≤ start ∧ start < stop ∧ stop ≤ cs + seq.length) :
+    (bs be : Int) (hb : selfBounds src = some (bs, be)) (hcs : 0 ≤ cs) (hbb : bs ≤ be)
+    (hov : max bs cs < min be (cs + seq.length)) (start stop : Int) (hne : start ≠ stop)
+    (h : max bs cs ≤ max start bs ∧ max start bs < min stop be ∧ min stop be ≤ min be (cs + seq.length)) :
     subsetParent src start stop =
-      .ok (if start = cs ∧ stop = cs + seq.length then .chunk cs (cs + seq.length) seq
-           else .chunk start stop (slice seq (start - cs) (stop - cs))) :=
-  subsetParentG_chunk _ _ src cs seq hp hb hcs start stop h
-
-/-- REPAIRED F-C09c (`fixC = true`): a range reaching beyond the chunk on either side is clamped to the chunk —
-    the new parent is the stretch `[max start cs, min stop ce)`; nothing is lost at the chunk end. -/
-theorem subsetParentG_chunk_clamped (fixB : Bool) (src : Source) (cs : Int) (seq : List Char)
-    (hp : src.par = .chunk cs seq) (hb : src.bounds = none) (hcs : 0 ≤ cs) (start stop : Int)
-    (h : max start cs < min stop (cs + seq.length))
-    (hnid : ¬ (start = cs ∧ stop = cs + seq.length)) :
-    subsetParentG fixB true src start stop =
-      .ok (.chunk (max start cs) (min stop (cs + seq.length))
-            (slice seq (max start cs - cs) (min stop (cs + seq.length) - cs))) := by
-  unfold subsetParentG
+      .ok (if start = bs ∧ stop = be then .chunk cs (cs + seq.length) seq
+           else .chunk (max start bs) (min stop be) (slice seq (max start bs - cs) (min stop be - cs))) := by
+  unfold subsetParent
   rw [hp]
-  have hne : ¬ start = stop := by omega
-  simp only [hne, if_false, Par.hasSeq, Bool.true_eq_false, and_false, needBounds_of (selfBounds_chunk hp hb), bind,
-    Except.bind, pure, Except.pure]
-  simp only [hnid, if_false, hb, Option.isSome_none, Bool.false_eq_true, and_false, Par.isChunk, true_and, if_true]
-  have e1 : (if start < cs then cs else start) = max start cs := by split <;> omega
-  have e2 : (if stop > cs + (seq.length : Int) then cs + (seq.length : Int) else stop) = min stop (cs + seq.length) := by
-    split <;> omega
-  rw [e1, e2]
-  rw [p2r_in cs (cs + seq.length) (max start cs) (by omega)]
-  simp only []
-  rw [p2r_in cs (cs + seq.length) (min stop (cs + seq.length) - 1) (by omega)]
-  simp only []
-  have e3 : min stop (cs + (seq.length : Int)) - 1 - cs + 1 = min stop (cs + seq.length) - cs := by omega
-  rw [e3]
-  exact mkChunk_ok _ _ _ (by omega) (by omega)
-    (by rw [slice_length _ _ _ (by omega) (by omega) (by omega)]; omega)
+  have hovl : overlapInt (cs, cs + (seq.length : Int)) (bs, be) = true := by
+    rw [overlapInt_iff _ _ _ _ (by omega) hbb]; simp only [decide_eq_true_eq]; omega
+  simp only [needBounds_of hb, bind, Except.bind, located, hovl, if_true, hne, if_false]
+  by_cases hid : start = bs ∧ stop = be
+  · simp only [hid, and_self, if_true]; rfl
+  · simp only [hid, if_false, Par.isChunk, true_and]
+    have e1 : (if start < bs then bs else start) = max start bs := by split <;> omega
+    have e2 : (if stop > be then be else stop) = min stop be := by split <;> omega
+    rw [e1, e2]
+    rw [p2r_in (max bs cs) (min be (cs + seq.length)) (max start bs) (by omega)]
+    simp only []
+    rw [p2r_in (max bs cs) (min be (cs + seq.length)) (min stop be - 1) (by omega)]
+    simp only []
+    have e3 : min stop be - 1 - max bs cs + 1 = min stop be - max bs cs := by omega
+    rw [e3, slice_slice seq (max bs cs - cs) (min be (cs + seq.length) - cs) _ _ (by omega) (by omega) (by omega)]
+    have e4 : max bs cs - cs + (max start bs - max bs cs) = max start bs - cs := by omega
+    have e5 : max bs cs - cs + (min stop be - max bs cs) = min stop be - cs := by omega
+    rw [e4, e5]
+    exact mkChunk_ok _ _ _ (by omega) (by omega)
+      (by rw [slice_length _ _ _ (by omega) (by omega) (by omega)]; omega)
 
-/-- REPAIRED F-C09b (`fixB = true`): a sequence-less parent is handed on unchanged -/
-theorem subsetParentG_noseq (fixC : Bool) (src : Source) (hp : src.par = .noseq) (start stop : Int)
-    (hne : start ≠ stop) : subsetParentG true fixC src start stop = .ok .noseq := by
-  unfold subsetParentG
+/-- bounds that miss the chunk: the collection's location is an EmptyLocation, which has no parent -/
+theorem subsetParent_chunk_off (src : Source) (cs : Int) (seq : List Char) (hp : src.par = .chunk cs seq)
+    (bs be : Int) (hb : selfBounds src = some (bs, be)) (hbb : bs ≤ be)
+    (hoff : ¬ max bs cs < min be (cs + seq.length)) (start stop : Int) :
+    subsetParent src start stop = .ok .none := by
+  unfold subsetParent
   rw [hp]
-  simp only [hne, if_false, Par.hasSeq, and_self, if_true]
+  have hovl : overlapInt (cs, cs + (seq.length : Int)) (bs, be) = false := by
+    rw [overlapInt_iff _ _ _ _ (by omega) hbb]; simp only [decide_eq_false_iff_not]; omega
+  simp only [needBounds_of hb, bind, Except.bind, located, hovl, Bool.false_eq_true, if_false]
   rfl
-
-/-- for `start = stop` every version drops a sequence-less parent ("a now null interval") -/
-theorem subsetParentG_noseq_null (fixB fixC : Bool) (src : Source) (hp : src.par = .noseq) (start : Int) :
-    subsetParentG fixB fixC src start start = .ok .none := by
-  unfold subsetParentG
-  rw [hp]
-  simp only [if_true]
-  rfl
-
-/-! ### the new parent carries the source's sequence restricted to the new bounds -/
-
-theorem whole_norm_eq_expect (seq : List Char) (start stop : Int)
-    (h : 0 ≤ start ∧ start < stop ∧ stop ≤ seq.length) :
-    (if start = 0 ∧ stop = seq.length then RPar.whole seq else .chunk start stop (slice seq start stop)).norm
-      = (expectPar (.whole seq) start stop).norm := by
-  have e1 : max start 0 = start := by omega
-  have e2 : min stop (seq.length : Int) = stop := by omega
-  unfold expectPar
-  simp only [e1, e2, stretch, Int.sub_zero]
-  split
-  · rename_i hid
-    obtain ⟨h1, h2⟩ := hid
-    subst h1 h2
-    simp only [RPar.norm, slice_full]
-  · rfl
-
-theorem chunk_norm_eq_expect (cs : Int) (seq : List Char) (start stop : Int)
-    (h : cs ≤ start ∧ start < stop ∧ stop ≤ cs + seq.length) :
-    (if start = cs ∧ stop = cs + seq.length then RPar.chunk cs (cs + seq.length) seq
-     else .chunk start stop (slice seq (start - cs) (stop - cs))).norm
-      = (expectPar (.chunk cs seq) start stop).norm := by
-  have e1 : max start cs = start := by omega
-  have e2 : min stop (cs + (seq.length : Int)) = stop := by omega
-  unfold expectPar
-  simp only [e1, e2, stretch]
-  split
-  · rename_i hid
-    obtain ⟨h1, h2⟩ := hid
-    have e3 : cs - cs = 0 := by omega
-    have e4 : cs + (seq.length : Int) - cs = seq.length := by omega
-    simp only [RPar.norm, h1, h2]
-    rw [e3, e4, slice_full]
-  · rfl
 
 /-! ### member sequences: the model's route (chunk-relative lift, slice of the new chunk) = the spec's -/
 
 theorem orient_nil (st : Strand) : orient st [] = [] := by
   cases st <;> rfl
 
+theorem norm_whole (seq : List Char) (h : seq ≠ []) : (RPar.whole seq).norm = .chunk 0 seq.length seq := by
+  unfold RPar.norm
+  cases seq with
+  | nil => exact absurd rfl h
+  | cons _ _ => rfl
+
+theorem norm_chunk (a b : Int) (seq : List Char) (h : seq ≠ []) : (RPar.chunk a b seq).norm = .chunk a b seq := by
+  unfold RPar.norm
+  cases seq with
+  | nil => exact absurd rfl h
+  | cons _ _ => rfl
+
 theorem memberSeq_norm_eq_expect (rp : RPar) (g : GChild) (hg : g.start ≤ g.stop)
     (hrp : match rp with
-           | .whole seq => 0 ≤ g.start ∧ g.stop ≤ seq.length
-           | .chunk cs ce _ => cs ≤ ce
+           | .whole seq => seq ≠ [] ∧ 0 ≤ g.start ∧ g.stop ≤ seq.length
+           | .chunk cs ce seq => seq ≠ [] ∧ cs ≤ ce
            | _ => True) :
     (memberSeq rp g).norm = (expectMSeq rp g).norm := by
   cases rp with
@@ -284,7 +204,8 @@ theorem memberSeq_norm_eq_expect (rp : RPar) (g : GChild) (hg : g.start ≤ g.st
     unfold memberSeq expectMSeq
     have e1 : max g.start 0 = g.start := by omega
     have e2 : min g.stop (seq.length : Int) = g.stop := by omega
-    simp only [RPar.norm, e1, e2, stretch, Int.sub_zero]
+    rw [norm_whole seq hrp.1]
+    simp only [e1, e2, stretch, Int.sub_zero]
     split
     · rfl
     · rename_i hlt
@@ -293,8 +214,9 @@ theorem memberSeq_norm_eq_expect (rp : RPar) (g : GChild) (hg : g.start ≤ g.st
   | chunk cs ce seq =>
     simp only at hrp
     unfold memberSeq expectMSeq
-    simp only [RPar.norm, stretch]
-    rw [overlapInt_iff _ _ _ _ hrp hg]
+    rw [norm_chunk cs ce seq hrp.1]
+    simp only [stretch]
+    rw [overlapInt_iff _ _ _ _ hrp.2 hg]
     by_cases hov : g.start < ce ∧ cs < g.stop ∧ g.start < g.stop ∧ cs < ce
     · have : max g.start cs < min g.stop ce := by omega
       simp only [hov, and_self, decide_true, if_true, this]
